@@ -95,17 +95,22 @@ func verifBalOfAcc(a types.Account, denom string) math.Int {
 
 // verifSub builds sub-distributor i: nsrc sources and (optionally) one named share from the pools; shares symbolic in [0,1).
 func verifSub(i int, nsrc int, withShare bool) types.SubDistributor {
+	return verifSubFrom(i, nsrc, withShare, dSourcePool, dDestPool)
+}
+
+// verifSubFrom: like verifSub with explicit account pools.
+func verifSubFrom(i int, nsrc int, withShare bool, srcPool, dstPool []types.Account) types.SubDistributor {
 	id := string(rune('1' + i))
 	sd := types.SubDistributor{Name: "sd" + id}
 	for j := 0; j < nsrc; j++ {
-		a := dSourcePool[verif_choice("src"+id+string(rune('a'+j)), len(dSourcePool))]
+		a := srcPool[verif_choice("src"+id+string(rune('a'+j)), len(srcPool))]
 		sd.Sources = append(sd.Sources, &a)
 	}
-	sd.Destinations.PrimaryShare = dDestPool[verif_choice("primary"+id, len(dDestPool))]
+	sd.Destinations.PrimaryShare = dstPool[verif_choice("primary"+id, len(dstPool))]
 	sd.Destinations.BurnShare = verif_dec_range("burn"+id, "0", "999999999999999999")
 	if withShare {
 		sd.Destinations.Shares = []*types.DestinationShare{{Name: "share" + id, Share: verif_dec_range("share"+id, "0", "999999999999999999"),
-			Destination: dDestPool[verif_choice("shareDst"+id, len(dDestPool))]}}
+			Destination: dstPool[verif_choice("shareDst"+id, len(dstPool))]}}
 	}
 	return sd
 }
